@@ -3,8 +3,8 @@
 cd /verif
 for d in seeded/*/; do
   id=$(basename $d); prop=${id%%-*}
-  res=$(lib/eval_seed.sh $prop $d/patch.diff quick ${1:-1} 2>&1 | grep "^RESULT")
-  sig=$(grep -m1 -o "signature=[^ ]*" target/seed_eval_$prop.out | cut -c1-110)
+  res=$(lib/eval_seed.sh $prop /verif/${d}patch.diff quick ${1:-1} 2>&1 | grep "^RESULT")
+  sig=$(grep -m1 -o "signature=[^ ]*" target/seed_eval_$prop.out | cut -c1-110); rm -f target/seed_eval_$prop.out
   echo "$id $res $sig"
 done
 lib/build.sh --with-rip
